@@ -44,7 +44,7 @@ def case_hash(case):
 
 
 def strip_case(c):
-    return {k: v for k, v in c.items() if k in ('kind', 'calls', 'state', 'variants', 'meta')}
+    return {k: v for k, v in c.items() if k in ('kind', 'calls', 'state', 'variants', 'meta', 'continue_after_raise')}
 
 
 def nontrivial_result(res):
@@ -166,7 +166,7 @@ class Spec:
                 if nontrivial_result(r):
                     nt += 1
             try:
-                o = self.oracle(ctx, c, r, vr)
+                o = abort_oracle(ctx.pid, c, r, vr) if (c.get('meta') or {}).get('abort') else self.oracle(ctx, c, r, vr)
             except Exception as e:  # an oracle crash is a harness bug, never a violation
                 o = None
                 self._oracle_errors = getattr(self, '_oracle_errors', 0) + 1
@@ -181,7 +181,7 @@ class Spec:
         return fails, nt, len(flat)
 
     def search(self, ctx, extra_cases, boost):
-        cases = list(extra_cases) + list(self.search_cases(ctx, boost))
+        cases = list(extra_cases) + list(self.search_cases(ctx, boost)) + (gen.abort_histories() if ctx.pid in ABORT_PIDS else [])
         fails, nt, n = self.run_oracle(ctx, cases)
         out = {'cases': n, 'failures': fails, 'distinct_nontrivial': nt, 'samples': [], 'distribution': {}}
         if cases:
@@ -225,6 +225,23 @@ class Spec:
             if r and r != 'SKIP':
                 return 'model and implementation differ: ' + r
         return None
+
+
+# histories with a render call that ends in an exception the application catches (a throwing callback, an exhausted stack):
+# the next call with reset must render as in a fresh interpreter.  Implementation only: the model's failure carries no state.
+ABORT_PIDS = {'C05', 'C10', 'C16'}
+
+
+def abort_oracle(pid, case, impl, variants):
+    if not variants or impl.get('timeout') or variants[0].get('timeout') or len(impl.get('calls', [])) < 2:
+        return None
+    a, b = impl['calls'][-1], variants[0]['calls'][-1]
+    if a.get('status') != 'ok' or b.get('status') != 'ok':
+        return None
+    if a['html'] != b['html']:
+        return (pid + '/output-depends-on-aborted-history', 'with reset after an aborted render: %r, in a fresh interpreter %r'
+                % (a['html'][:150], b['html'][:150]))
+    return None
 
 
 # scenario families (harness/scenarios.py) per property: structured interaction matrices next to the random streams
@@ -1604,6 +1621,14 @@ class C02(Spec):
                 c = H([call(src, safeMode=mode, reset=True, cb=True)])
                 c['meta'] = {'regex': tag, 'len': len(src)}
                 out.append(c)
+        # short pumps (exponential blow-ups show at a few dozen characters): every special character repeated after every opener
+        for ch in '\\{}|=!?$*_`~[]()<>&#.:-+"\'/@;, ':
+            for pre in ['', '{m|', '{m=', '{m!', '[', '<', '<a|', '<a@b|', '# ', '.', '.a ', '- ', '`', '*', 'x::', '<image:', '&', '<!--', '/', "= = '"]:
+                for unit in (ch, ch + 'a'):
+                    src = pre + unit * 48
+                    c = H([call(src, safeMode=1, reset=True, cb=True)])
+                    c['meta'] = {'regex': 'short-pump:' + pre + unit, 'len': len(src)}
+                    out.append(c)
         return out
 
     def streams(self, ctx):
@@ -1783,12 +1808,37 @@ class C18(Spec):
         if 'o/x.txt' in argv:
             files.append(['o/keep.txt', 'k'])
         case = {'kind': 'M', 'argv': argv, 'stdin': rng.choice(self.DOCS), 'files': files,
-                'rimurc': rng.choice([None, None, "{rc}='RC'", '{undefrc}'])}
+                'rimurc': rng.choice([None, None, "{rc}='RC'", '{undefrc}', "{rc}='RC'\n<div>rc {rc}</div>"])}
         return case
+
+    def cli_matrix(self):
+        """which inputs are trusted: ~/.rimurc, prepend files and text, against every safe mode"""
+        out = []
+        doc = 'doc {rc} {pf} {pt} <b>raw</b>\n\n<div>block</div>'
+        for rc in [None, "{rc}='RC'\n<div>rc</div>"]:
+            for sm in [None, '0', '1', '2', '3', '5', '9', '15']:
+                for norc in [False, True]:
+                    for pre in [0, 1, 2, 3]:
+                        argv = []
+                        files = [['in.rmu', doc]]
+                        if sm is not None:
+                            argv += ['--safe-mode', sm]
+                        if norc:
+                            argv.append('--no-rimurc')
+                        if pre & 1:
+                            argv += ['--prepend-file', 'pf.rmu']
+                            files.append(['pf.rmu', "{pf}='PF'\n<div>pf</div>"])
+                        if pre & 2:
+                            argv += ['--prepend', "{pt}='PT'\n<i>pt</i>"]
+                        for extra in [[], ['--html-replacement', ''], ['--html-replacement', 'R']]:
+                            if extra and sm not in ('2', '3'):
+                                continue
+                            out.append({'kind': 'M', 'argv': argv + extra + ['in.rmu'], 'stdin': '', 'files': files, 'rimurc': rc})
+        return out
 
     def correspondence(self, ctx):
         rng = ctx.rng('X')
-        cases = [self.gen_cli(rng) for _ in range(sizes(ctx, 250, 6000))] + gen.saved_corpus('C18')
+        cases = [self.gen_cli(rng) for _ in range(sizes(ctx, 250, 6000))] + gen.saved_corpus('C18') + self.cli_matrix()
         mo = model_run([common.cli_line(c) for c in cases], timeout=120)
         io_ = impl_run(cases, timeout=self.timeout)
         out = {'cases': len(cases), 'disagreements': [], 'streams': {'X': {'cases': len(cases), 'disagreements': 0}}, 'skipped': 0,
@@ -1810,7 +1860,7 @@ class C18(Spec):
 
     def search_cases(self, ctx, boost):
         rng = ctx.rng('S')
-        return [self.gen_cli(rng) for _ in range(sizes(ctx, 300, 6000) * (3 if boost else 1))]
+        return [self.gen_cli(rng) for _ in range(sizes(ctx, 300, 6000) * (3 if boost else 1))] + self.cli_matrix()
 
     def run_oracle(self, ctx, cases):
         import importlib
